@@ -1144,6 +1144,10 @@ def check_removal_inventory(rep, fl):
     # callers of ShardedMap::try_remove / clear and of policy remove / clear
     expect = {
         SM + "::try_remove": {fl.cache + "::try_remove", fl.processor + "::handle_item", fl.cleanup},
+        # the in-place write belongs to the caller's insert (applied at once, in program order); the processor only ever
+        # inserts what the policy has just admitted - a queued item is never written over a resident entry later
+        SM + "::try_update": {fl.cache + "::try_update"},
+        SM + "::try_insert": {fl.processor + "::handle_item"},
         SM + "::clear": {fl.processor + "::handle_clear_event"},
         fl.policy + "::remove": {fl.processor + "::handle_item", fl.cleanup},
         fl.policy + "::clear": {fl.processor + "::handle_clear_event"},
@@ -1167,6 +1171,8 @@ def check_removal_inventory(rep, fl):
 
 def check_C03(rep, fl):
     check_lookup_guards(rep, fl)
+    # "re-inserting a resident key replaces its deadline": only the caller's own insert writes a resident entry
+    keep_sites(rep, fl, check_removal_inventory, ("*ShardedMap::try_update|callers", "*ShardedMap::try_insert|callers"))
     check_expiration_getter(rep, fl)
     check_get_ttl(rep, fl)
     check_time(rep, fl)
